@@ -291,6 +291,51 @@ def check_delete(case, db, got, res):
             pass
 
 
+def check_rewrite(case, db, got, res):
+    """look-ups stay exact after a stored feature is REWRITTEN IN PLACE on the same FeatureDB object: the key is looked up,
+    the feature rewritten through add_relation(..., child_func=/parent_func=) (which stores what the function returns),
+    and the key looked up again - db[key] must be the row now stored, as a direct read of the table shows it"""
+    p, c = case["rewrite_parent"], case["rewrite_child"]
+    if p not in got or c not in got or p == c:
+        return
+    before = {k: db[k] for k in (p, c)}                 # looked up before the rewrite
+
+    def child_func(parent, child):
+        child.attributes["Parent"] = [parent.id]
+        child.attributes["rewritten"] = ["yes"]
+        return child
+
+    def parent_func(parent, child):
+        parent.attributes["touched"] = ["1", "2"]
+        parent.source = "edited"
+        return parent
+
+    kw = {"child": {"child_func": child_func}, "parent": {"parent_func": parent_func},
+          "both": {"child_func": child_func, "parent_func": parent_func}}[case["rewrite_with"]]
+    try:
+        db.add_relation(p if case["rewrite_args"] == "ids" else before[p], c if case["rewrite_args"] == "ids" else before[c],
+                        level=1, **kw)
+    except Exception as ex:
+        # (parent, child, 1) may exist already: sqlite rejects the duplicate relation; nothing was rewritten
+        if dbside.err_name(ex) == "IntegrityError":
+            res.count("rewrite_relation_existed")
+            db.conn.rollback()
+            return
+        common.fail(res, case, "add_relation_raised", "add_relation raised %r" % ex, error=dbside.err_name(ex))
+        return
+    rows = {str(x["id"]): x for x in dbside.rows_of(db)}
+    for k in (p, c):
+        g = db[k]
+        row = rows[k]
+        if {a: list(b) for a, b in g.attributes._d.items()} != {a: list(b) for a, b in row["attributes"].items()} \
+                or g.source != row["source"]:
+            common.fail(res, case, "lookup_stale_after_rewrite",
+                        "db[key] is not the feature stored under the key after the row was rewritten in place "
+                        "(add_relation with child_func / parent_func)", key=k,
+                        observed={"source": g.source, "attributes": {a: list(b) for a, b in g.attributes._d.items()}},
+                        expected={"source": row["source"], "attributes": row["attributes"]})
+
+
 GTF_DEFAULT = [gen_db.gtf_line("chr1", "gene", 1, 100, "+", [("gene_id", ["G"])]),
                gen_db.gtf_line("chr1", "transcript", 1, 100, "+", [("gene_id", ["G"]), ("transcript_id", ["T"])]),
                gen_db.gtf_line("chr1", "exon", 1, 50, "+", [("gene_id", ["G"]), ("transcript_id", ["T"])]),
@@ -428,10 +473,93 @@ def gen_defaults(r, i):
                    base_config=dbside.Cfg(disG=True, disT=True).to_json(), form=r.choice(["path", "features"]))
 
 
+# ---- GTF import with inference: the keys handed to INFERRED genes / transcripts come from the same counters ---------------
+GTF_COUNTER_SPECS = [dbside.IdSpec("D", table={"gene": [("a", "gene_id")]}),
+                     dbside.IdSpec("D", table={"transcript": [("a", "transcript_id")]}),
+                     dbside.IdSpec("L", [("c", "none")], form="callable"),
+                     dbside.IdSpec("D", table={"exon": [("a", "missing")]})]
+GTF_SECOND = [gen_db.gtf_line("chr9", "transcript", 5000, 5400, "+", [("gene_id", ["gNEW"]), ("transcript_id", ["tNEW"])]),
+              gen_db.gtf_line("chr9", "exon", 5000, 5400, "+", [("gene_id", ["gNEW"]), ("transcript_id", ["tNEW"])])]
+
+
+def numbered(ids):
+    """{base: sorted numbers} of the keys shaped '<featuretype>_<n>' for the featuretypes the importer numbers"""
+    out = {}
+    for k in ids:
+        b, _, n = k.rpartition("_")
+        if b in ("gene", "transcript", "exon", "CDS", "start_codon", "UTR") and n.isdigit():
+            out.setdefault(b, []).append(int(n))
+    return {b: sorted(v) for b, v in out.items()}
+
+
+def check_gtf_counters(ctx, case, res, cmds=None, exp=None, tags=None):
+    """scenario 'gtf_counters': a GTF file imported with gene / transcript inference under an id_spec that leaves
+    some featuretype - also an INFERRED one - to '<featuretype>_<n>'.  The numbers handed out are 1..k per featuretype,
+    the stored counters say k, and after reopening the file an update() that needs more such keys continues with k+1
+    (keys stay unique, nothing raises)"""
+    import gffutils
+    import warnings
+    lines = case["input"]
+    cfg = dbside.Cfg.from_json(case["config"])
+    path = dbside.write_lines(os.path.join(ctx.scratch, "c04c.gtf"), lines)
+    dbfn = os.path.join(ctx.scratch, "c04c-%d.db" % case.get("serial", 0))
+    db, rep = dbside.py_create(path, cfg, dbfn=dbfn)
+    inp = {"scenario": "gtf_counters", "lines": lines, "config": cfg.describe()}
+    if cmds is not None:
+        cmds.append(dbside.cmd_create(lines, cfg)); exp.append(rep); tags.append(("create_db GTF counters", repr(inp)))
+    if db is None:
+        common.fail(res, case, "create_db_raised", "create_db raised on a GTF file whose keys are well defined: " + rep,
+                    error=rep, observed=rep, expected="ok")
+        return
+    ids = [str(x["id"]) for x in dbside.rows_of(db)]
+    if cmds is not None:
+        cmds.append("dump"); exp.append("COUNTERS " + dbside.dump(db)); tags.append(("counters after GTF import", repr(inp)))
+    nums = numbered(ids)
+    want = {b: len(v) for b, v in nums.items()}
+    if len(set(ids)) != len(ids) or any(v != list(range(1, len(v) + 1)) for v in nums.values()):
+        common.fail(res, case, "numbering_not_1_to_k", "the '<featuretype>_<n>' keys are not numbered 1..k per featuretype",
+                    observed=nums)
+        return
+    stored = {k: v for k, v in dbside.pauto_of(db).items() if k in want or v}
+    if stored != want:
+        common.fail(res, case, "stored_counters_behind_keys",
+                    "the id counters stored in the database are not the numbers of the '<featuretype>_<n>' keys handed out "
+                    "(a later import would hand a key out again)", observed=stored, expected=want)
+        return
+    del db
+    db2 = gffutils.FeatureDB(dbfn)
+    upath = dbside.write_lines(os.path.join(ctx.scratch, "c04c2.gtf"), GTF_SECOND)
+    try:
+        with warnings.catch_warnings():
+            warnings.simplefilter("ignore")
+            db2.update(upath, make_backup=False, **cfg.update_kwargs())
+        rep2 = "ok"
+    except Exception as ex:
+        rep2 = "err " + dbside.err_name(ex)
+    if cmds is not None:
+        cmds.append("reopen"); exp.append("ok"); tags.append(("reopen", repr(inp)))
+        cmds.append(dbside.cmd_update(GTF_SECOND, cfg)); exp.append(rep2); tags.append(("update after reopen (GTF counters)", repr(inp)))
+    if rep2 != "ok":
+        common.fail(res, case, "update_after_reopen_raised",
+                    "after reopening, an update whose features need further '<featuretype>_<n>' keys raised " + rep2,
+                    error=rep2, observed=rep2, expected="ok")
+        return
+    ids2 = [str(x["id"]) for x in dbside.rows_of(db2)]
+    nums2 = numbered(ids2)
+    if len(set(ids2)) != len(ids2) or any(v != list(range(1, len(v) + 1)) for v in nums2.values()):
+        common.fail(res, case, "numbering_not_continued", "after reopen + update the '<featuretype>_<n>' keys are not 1..k",
+                    observed=nums2)
+    if cmds is not None:
+        cmds.append("dump"); exp.append("COUNTERS " + dbside.dump(db2)); tags.append(("counters after reopen + update", repr(inp)))
+
+
 def judge(ctx, case):
     res = common.Result("C04")
     if case["scenario"] == "gtf_default_idspec":
         check_gtf_default(ctx, case, res)
+        return res
+    if case["scenario"] == "gtf_counters":
+        check_gtf_counters(ctx, case, res)
         return res
     if case["scenario"] in ("force_gff_default", "update_default"):
         check_defaults(ctx, case, res)
@@ -449,6 +577,8 @@ def judge(ctx, case):
         check_lookups(case, feats, lines, db, got, res)
     elif case["scenario"] == "delete_lookup":
         check_delete(case, db, got, res)
+    elif case["scenario"] == "rewrite_lookup":
+        check_rewrite(case, db, got, res)
     return res
 
 
@@ -518,6 +648,14 @@ def run(ctx):
         cmds.append("get " + enc("__absent__")); exp.append("err FeatureNotFoundError")
         tags.append(("__getitem__ absent", repr(inp)))
         # look-ups stay exact after deletions on the same FeatureDB object (by id and by Feature object)
+        if len(got) >= 2 and i % 2 == 1:
+            pc = rv.sample(got, 2)
+            wcase = mk_case("rewrite_lookup", lines, feats, cfg, rewrite_parent=pc[0], rewrite_child=pc[1],
+                            rewrite_with=rv.choice(["child", "parent", "both"]), rewrite_args=rv.choice(["ids", "features"]))
+            if i >= n:
+                wcase.update(checklines=cl, supplied=supplied)
+            res.count("rewrite_lookup_" + wcase["rewrite_with"])
+            check_rewrite(wcase, db, got, res)
         if len(got) >= 2 and i % 2 == 0:
             victims = rv.sample(got, rv.randrange(1, min(3, len(got)) + 0))
             by = "features" if rv.random() < 0.5 else "ids"
@@ -539,10 +677,30 @@ def run(ctx):
         res.evaluations += 1
         res.count("defaults_%s_%s_%s" % (dcase["scenario"], dcase["db_format"], dcase.get("form", "-")))
         check_defaults(ctx, dcase, res, cmds, exp, tags)
+    rg = ctx.rng("c04", "GTF inference and the counters")
+    for i in range(24 if not ctx.thorough else 240):
+        recs = gen_db.rand_gtf_forest(rg, explicit=False)
+        if not recs:
+            continue
+        gcfg = dbside.Cfg(idspec=GTF_COUNTER_SPECS[i % len(GTF_COUNTER_SPECS)])
+        gcase = {"scenario": "gtf_counters", "input": gen_db.gtf_lines(recs), "config": gcfg.to_json(), "serial": i,
+                 "no_shrink": True}
+        res.evaluations += 1
+        res.count("gtf_counters_idspec_" + gcfg.idspec.describe()[:24])
+        check_gtf_counters(ctx, gcase, res, cmds, exp, tags)
     out = ctx.model(cmds)
     if out is not None:
         for c, m, e, (comp, inp) in zip(cmds, out, exp, tags):
             res.corr_checked += 1
+            if e.startswith("COUNTERS "):
+                # the model and sqlite derive genes / transcripts in different orders, so WHICH derived feature gets
+                # transcript_1 differs; compared: the set of keys and both counter tables
+                a, b = dbside.parse_dump(m), dbside.parse_dump(e[9:])
+                pa = (sorted(f["id"] for f in a.get("features", [])), a.get("auto"), a.get("pauto"), a.get("error"))
+                pb = (sorted(f["id"] for f in b.get("features", [])), b.get("auto"), b.get("pauto"), b.get("error"))
+                if pa != pb:
+                    res.corr_disagreements.append((comp, inp[:800], repr(pa)[:800], repr(pb)[:800]))
+                continue
             if e.startswith("IDONLY "):
                 ok = m.startswith("ok ")
                 if not ok:
